@@ -8,8 +8,7 @@ from . import c09
 P = "C03"
 
 
-def r1(ctx):
-    rule = "C03.R1"
+def r1(ctx, P=P, rule="C03.R1"):
     fa = ctx.real_body(CREATE_PROOF, [INTO_PROOF])
     if not need(ctx, P, rule, CREATE_PROOF, fa):
         return
@@ -21,7 +20,7 @@ def r1(ctx):
     # the block that is read is the proof's block
     idx = fa.arg_origin(gs[0], 1)
     ctx.check(P, rule, "the value is read for the proof's own block index", term_has_call(idx, CVP_CORE) == cv[0] and term_sig(strip(idx)).endswith(".index") and ".block" in term_sig(idx), "get(valueless_proof.block.index)",
-              "get is called with %s" % term_str(idx)[:100], [site_desc(fa, gs[0])], key="C03|C03.R1|create_proof|index")
+              "get is called with %s" % term_str(idx)[:100], [site_desc(fa, gs[0])], key=("%s|%s|" % (P, rule)) + "create_proof|index")
     # value.is_none() => Ok(None) without into_proof
     sw = [x for x in option_tests(fa, lambda v_: gs[0] in call_root_bb(v_))]
     if not need(ctx, P, rule, "create_proof: test of the value read", sw):
@@ -29,7 +28,7 @@ def r1(ctx):
     b, o, some_e, none_e = sw[0]
     vals = [t for _, _, t in ret_values_in_region(fa, none_e)]
     okn = edge_returns_without(fa, none_e, ip)[0] and vals and all(is_agg(t, "Ok") and is_agg(agg_field(t, "0"), "None") for t in vals)
-    ctx.check(P, rule, "a block that cannot be read yields no proof", okn, "value.is_none() => Ok(None), into_proof not reached", "the not-held edge reaches into_proof or returns %s" % [term_str(v)[:40] for v in vals], key="C03|C03.R1|create_proof|no proof without block")
+    ctx.check(P, rule, "a block that cannot be read yields no proof", okn, "value.is_none() => Ok(None), into_proof not reached", "the not-held edge reaches into_proof or returns %s" % [term_str(v)[:40] for v in vals], key=("%s|%s|" % (P, rule)) + "create_proof|no proof without block")
     # into_proof's value: Some(read value) on the block path, None only when the valueless proof has no block —
     # whether the proof is assembled at one site (value = if block { get } else { None }) or at two
     blk = [x for x in switch_edges_on(fa, lambda o: o[0] == "disc" and ".block" in term_sig(o[1]) and term_has_call(o[1], CVP_CORE) == cv[0])]
@@ -54,7 +53,7 @@ def r1(ctx):
                 good = False
     good = good and saw_get
     ctx.check(P, rule, "the proof carries the value read for its block, and no value only when it has no block", good, "value = get(block.index) if block.is_some() else None",
-              "into_proof receives %s" % shown, [site_desc(fa, s_) for s_ in ip], key="C03|C03.R1|create_proof|value provenance")
+              "into_proof receives %s" % shown, [site_desc(fa, s_) for s_ in ip], key=("%s|%s|" % (P, rule)) + "create_proof|value provenance")
     vp = fa.arg_origin(ip[0], 0)
     ctx.check(P, rule, "the proof returned is the one created for this request", call_root_bb(vp) == [cv[0]], "valueless_proof.into_proof(value)", "into_proof receiver is %s" % term_str(vp)[:80])
     a = [fa.arg_origin(cv[0], i) for i in range(1, 5)]
@@ -228,9 +227,18 @@ def r6(ctx):
     c02.order_rule(ctx, P, "C03.R6", VAP, BS_PUT, True)
 
 
-RULES = [r1, r2, r2b, r3, r4, r5, r6]
+def r7(ctx):
+    """replica reopen, second half: the entries a replica logged (nodes and a bitfield update, with
+    or without an upgrade) are all re-applied when the core is opened — the replay clauses of
+    C01.R2, required here because a block fetched without an upgrade produces an entry that has
+    tree nodes and no tree upgrade"""
+    from . import c01
+    c01.r2(ctx, P, "C03.R7")
+
+
+RULES = [r1, r2, r2b, r3, r4, r5, r6, r7]
 EXPLANATION = ("C03 (honest proofs accepted, replicas converge): acceptance and convergence depend on flat-tree arithmetic that no structural rule captures; decided narrowly: create_proof reads the value for "
                "the proof's own block index, returns Ok(None) without building a proof when that block is not held, and passes request and proof parts through unchanged (R1); byte_offset_in_changeset sums "
-               "root lengths over the same root list in which it searched the position, and its panic-capable constructs are discharged (R2); sibling agreement: upgrade_proof / additional_upgrade_proof share branch conditions and flat-tree navigation except for the sub-proof inclusion, and verify_tree's two climbing loops are the same walk (R3); writer (block_and_seek_proof, seek_proof) and reader (verify_tree) climb sibling-then-parent once per level, the reader shifting iter.sibling() and recomputing at iter.parent() (R4); writer and reader connect an upgrade to the existing tree from the same place — the writer from the requester's last leaf (from - 2), the reader from the last root of the changeset (R5); an accepted proof is logged before it is committed in memory and flushed after the commit, so that it survives replica reopen (R6, the ordering clauses of C02.R2).")
+               "root lengths over the same root list in which it searched the position, and its panic-capable constructs are discharged (R2); sibling agreement: upgrade_proof / additional_upgrade_proof share branch conditions and flat-tree navigation except for the sub-proof inclusion, and verify_tree's two climbing loops are the same walk (R3); writer (block_and_seek_proof, seek_proof) and reader (verify_tree) climb sibling-then-parent once per level, the reader shifting iter.sibling() and recomputing at iter.parent() (R4); writer and reader connect an upgrade to the existing tree from the same place — the writer from the requester's last leaf (from - 2), the reader from the last root of the changeset (R5); an accepted proof is logged before it is committed in memory and flushed after the commit, so that it survives replica reopen (R6, the ordering clauses of C02.R2), and every logged entry — also one with tree nodes but no upgrade, as a block fetched at the current length produces — is re-applied on open (R7, the replay clauses of C01.R2).")
 NOT_DECIDED = ("that any honest proof verifies; agreement of node counts with missing_nodes; partial upgrades; convergence of lengths and bytes; request orders; replica reopen — the bulk of the property is not decided statically.")
 ASSUMPTIONS = ["flat_tree index arithmetic is correct"]
